@@ -84,8 +84,7 @@ mutual
       let rqs0 := match header with
         | none => []
         | some h => h.encode tbl
-      let rqs := if rqs0.isEmpty then rqs0 else rqs0 ++ ['/']
-      if q.isEmpty then rqs else rqs ++ q
+      if q.isEmpty then rqs0 else (if rqs0.isEmpty then rqs0 else rqs0 ++ ['/']) ++ q
   def encodeSegs (tbl : EscTable) : List Seg → List Str
     | [] => []
     | s :: ss => s.encode tbl :: encodeSegs tbl ss
